@@ -2,7 +2,7 @@
 from ..rules_tables import Tables, T4_edges, T5_T6_cost_depth
 from ..rules_flow import Flow, P_rules, P6_conservation
 from ..rules_alias import A4_params
-from ..rules_conv import B5_label_order, A9_circuit_truthiness
+from ..rules_conv import W16_positional_connectivity, B5_label_order, A9_circuit_truthiness
 
 FQ = "stabilizer_circuits.compress_preparation_circuit"
 
@@ -21,6 +21,7 @@ def run(tree, rep, tier):
     rep.rules["B5"]["floor"] = 0      # a sign repair that exports no string list has nothing to get wrong here (self-test m122 keeps the rule alive)
     A9_circuit_truthiness(rep, flow, [FQ])
     rep.rules["P1"]["floor"] = 3
+    W16_positional_connectivity(rep, flow, tree)
     rep.trusted += ["Q1", "Q2", "Q3", "Q4"]
     rep.decided += ["the input circuit object is never mutated (A4)", "the output obeys the connectivity (P1, P2, T4)",
                     "the output's two-qubit cost is the class cost whatever the input's length: the caller's circuit is not a leaf of the result (P6) and the cost column is true (T5)",
